@@ -608,6 +608,7 @@ def _(c, L):
                        pats=lambda cn, i: [S_.out_buf[cn][i]])
     yield "prefix", prefix_kept(E, S_, me)
     yield "sent", FA([INT], lambda j: Implies(And(0 <= j, j < L.k), is_message_frame(S_.out_buf[me][n0 + j], lst.at(j))))
+    yield "last_is_message", Implies(L.k > 0, S_.out_buf[me][n0 + L.k - 1][S("type")] == FV.fstr(S("message")))
 
 
 # ---------------------------------------------------------------- add
